@@ -112,6 +112,11 @@ package schema
 //@ nonnil *ObjectSchema
 //@ nonnil *StepOutputSchema
 //@ nonnil Object
+//@ nonnil CallableStep
+//@ nonnil CallableSignal
+//@ nonnil *SignalSchema
+//@ invariant SignalSchema(s): s.DataSchemaValue != nil
+//@ invariant CallableSignalSchema(s): s.InputValue != nil && s.handler != nil
 //@ invariant ScopeSchema(s): s.RootValue in s.ObjectsValue && s.ObjectsValue[s.RootValue] != nil && s.ObjectsValue[s.RootValue].IDValue == s.RootValue
 
 // ---------------------------------------------------------------------------------------------
@@ -552,3 +557,78 @@ package schema
 //@   names (err == nil) == pvalidOK(p, data)
 //@   names err == pvalidErr(p, data)
 //@   ensures err == validErr(p.TypeValue, data)
+
+// ---------------------------------------------------------------------------------------------
+// C11: step calls
+// ---------------------------------------------------------------------------------------------
+
+//@ abstract stepInput(s CallableStep) Scope
+//@ abstract stepOutputs(s CallableStep) map[string]*StepOutputSchema
+//@ abstract stepCallOK(s CallableStep, runID string, input any) bool
+//@ abstract stepCallOut(s CallableStep, runID string, input any) string
+//@ abstract stepCallData(s CallableStep, runID string, input any) any
+//@ interface CallableStep.Input(this) -> res
+//@   names res == stepInput(this) && res != nil
+//@   assigns nothing
+//@ interface CallableStep.Outputs(this) -> res
+//@   names res == stepOutputs(this) && preexisting(res)
+//@   assigns nothing
+//@ interface CallableStep.SignalHandlers(this) -> res
+//@   ensures forall k string :: k in res ==> res[k] != nil && res[k].DataSchemaValue != nil
+//@ interface CallableSignal.ToSignalSchema(this) -> res
+//@   ensures res != nil && res.DataSchemaValue != nil
+//@ func CallableStepSchema.SignalHandlers(s) -> handlers
+//@   loop 1 invariant handlers != nil && (forall k string :: k in handlers ==> handlers[k] != nil && handlers[k].DataSchemaValue != nil)
+//@ interface CallableStep.Call(this, ctx, runID, input) -> outputID, outputData, err
+//@   counted
+//@   names (err == nil) == stepCallOK(this, runID, input)
+//@   names err == nil ==> outputID == stepCallOut(this, runID, input) && outputData == stepCallData(this, runID, input) && outputID in stepOutputs(this)
+//@ interface StepOutput.Schema(this) -> res
+//@   names res != nil
+//@   assigns nothing
+
+//@ func CallableSchema.CallStep(s, ctx, runID, stepID, serializedInputData) -> outputID, serializedOutputData, err
+//@   ensures !(stepID in s.StepsValue) ==> typeOf(err) == type(BadArgumentError) && ghost("calls:schema.CallableStep.Call") == old(ghost("calls:schema.CallableStep.Call"))
+//@   ensures stepID in s.StepsValue && !unserOK(stepInput(s.StepsValue[stepID]), serializedInputData) ==> typeOf(err) == type(InvalidInputError) && ghost("calls:schema.CallableStep.Call") == old(ghost("calls:schema.CallableStep.Call"))
+//@   ensures stepID in s.StepsValue && unserOK(stepInput(s.StepsValue[stepID]), serializedInputData) ==> ghost("calls:schema.CallableStep.Call") == old(ghost("calls:schema.CallableStep.Call")) + 1
+//@   ensures err == nil ==> stepID in s.StepsValue && outputID == stepCallOut(s.StepsValue[stepID], runID, unserV(stepInput(s.StepsValue[stepID]), serializedInputData)) && outputID in stepOutputs(s.StepsValue[stepID])
+//@   ensures err == nil ==> serOK(stepOutputs(s.StepsValue[stepID])[outputID].SchemaValue, stepCallData(s.StepsValue[stepID], runID, unserV(stepInput(s.StepsValue[stepID]), serializedInputData))) && serializedOutputData == serV(stepOutputs(s.StepsValue[stepID])[outputID].SchemaValue, stepCallData(s.StepsValue[stepID], runID, unserV(stepInput(s.StepsValue[stepID]), serializedInputData)))
+//@   ensures err != nil ==> serializedOutputData == nil
+
+//@ func ScopeSchema.Validate(s, data) -> err
+//@   names (err == nil) == validOK(s, data)
+
+//@ func StepOutputSchema.Validate(s, data) -> err
+//@   names (err == nil) == validOK(s.SchemaValue, data)
+
+//@ spec stepWF(s *CallableStepSchema[StepData, InputType]) bool = s.handler != nil && s.stepData != nil && s.InputValue != nil && (forall k string :: k in s.stepData ==> s.stepData[k] != nil && s.stepData[k].startedWG != nil) && (forall d any :: validOK(s.InputValue, d) ==> typeOf(d) == type(InputType))
+
+//@ func CallableStepSchema.setupStepData(s, runID) -> res
+//@   requires s.stepData != nil && (forall k string :: k in s.stepData ==> s.stepData[k] != nil && s.stepData[k].startedWG != nil)
+//@   ensures res != nil && res.startedWG != nil && runID in s.stepData && s.stepData[runID] == res
+//@   ensures old(runID in s.stepData) ==> res == old(s.stepData[runID]) && inv(s.initializer) == old(inv(s.initializer))
+//@   ensures !old(runID in s.stepData) ==> fresh(res) && inv(s.initializer) == old(inv(s.initializer)) + (s.initializer != nil ? 1 : 0)
+//@   ensures forall k string :: k != runID ==> ((k in s.stepData) == old(k in s.stepData)) && (k in s.stepData ==> s.stepData[k] == old(s.stepData[k]))
+//@   ensures forall k string :: k in s.stepData ==> s.stepData[k] != nil && s.stepData[k].startedWG != nil
+
+//@ func CallableStepSchema.Call(s, ctx, runID, input) -> outputID, outputData, err
+//@   requires stepWF(s) && s.initializer != s.handler
+//@   ensures inv(s.handler) == old(inv(s.handler)) + (validOK(s.InputValue, input) ? 1 : 0)
+//@   ensures !validOK(s.InputValue, input) ==> typeOf(err) == type(InvalidInputError)
+//@   ensures err == nil ==> outputID in s.OutputsValue && validOK(s.OutputsValue[outputID].SchemaValue, outputData)
+//@   ensures validOK(s.InputValue, input) && !(lastres(s.handler, 0, zero(string)) in s.OutputsValue) ==> typeOf(err) == type(InvalidOutputError)
+//@   ensures validOK(s.InputValue, input) ==> same(lastarg(s.handler, 2, zero(InputType)), input.(InputType))
+//@   ensures validOK(s.InputValue, input) && err == nil ==> outputID == lastres(s.handler, 0, zero(string)) && outputData == lastres(s.handler, 1, zero(any))
+
+//@ func CallableStepSchema.CallSignal(s, ctx, runID, signalID, input) -> err
+//@   requires s.stepData != nil && (forall k string :: k in s.stepData ==> s.stepData[k] != nil && s.stepData[k].startedWG != nil)
+//@   ensures !(signalID in s.SignalHandlersValue) ==> typeOf(err) == type(BadArgumentError)
+
+//@ func CallableSignalSchema.Call(s, ctx, stepData, input) -> err
+//@   requires typeOf(stepData) == type(StepData) && (forall d any :: validOK(s.InputValue, d) ==> typeOf(d) == type(InputType))
+//@   ensures inv(s.handler) == old(inv(s.handler)) + (validOK(s.InputValue, input) ? 1 : 0)
+//@   ensures (err == nil) == validOK(s.InputValue, input)
+//@   ensures err != nil ==> typeOf(err) == type(InvalidInputError)
+
+//@ func CallableSchema.CallSignal(s, ctx, runID, stepID, signalID, serializedInputData) -> err
+//@   ensures !(stepID in s.StepsValue) ==> typeOf(err) == type(BadArgumentError)
